@@ -17,7 +17,7 @@ RULE = ("comparison constraints on PCBO and PCSO, logic constraints, and to_qubo
         "built with a sympy symbol as weight / penalty (one symbol per model, or one per constraint), then subs(symbol -> c) "
         "for dyadic c > 0; compared with the numeric build and with the Gallina model at c; non-trivial = the symbolic model "
         "has at least 3 terms; distinct by canonical JSON")
-THEOREMS = "C16_constraint, C16_logic, C16_spin, C16_affine"
+THEOREMS = "C16_constraint, C16_logic, C16_spin, C16_affine, C16_reduce_affine"
 MODELLED = "sympy arithmetic, subs and float conversion are outside the model (reached by the comparison only)"
 
 CVALS = [F(1), F(2), F(1, 2), F(7, 4), F(3), F(5, 2)]
